@@ -516,3 +516,82 @@ pub fn case_key(case: &Value) -> String {
 pub fn pos_of_case(case: &Value) -> Option<Pos> {
     text::read_fen(case.get("fen")?.as_str()?)
 }
+
+// ---------------------------------------------------------------------------------------------
+// legs in another build configuration
+
+/// Run `<release exe> leg <id> <tier>` and merge its result into this run.
+pub fn spawn_release_leg(run: &mut Run, name: &str) {
+    let exe = match std::env::var("OWLMC_REL") {
+        Ok(e) if std::path::Path::new(&e).exists() => e,
+        _ => {
+            run.exhaustive = false;
+            run.caps.push(format!("{}: release-configuration binary not available (OWLMC_REL unset); leg skipped", name));
+            return;
+        }
+    };
+    let t0 = Instant::now();
+    let tier = if run.tier == Tier::Quick { "quick" } else { "thorough" };
+    let out = std::process::Command::new(&exe).args(["leg", run.id, tier]).output();
+    let out = match out {
+        Ok(o) => o,
+        Err(e) => {
+            run.total.violate(json!({"kind": "section", "universe": name}), format!("cannot run release leg: {}", e));
+            return;
+        }
+    };
+    let stdout = String::from_utf8_lossy(&out.stdout).to_string();
+    let line = stdout.lines().find(|l| l.starts_with("LEG-RESULT "));
+    let Some(line) = line else {
+        // the release build died inside an owlchess call: that is a finding about the optimised
+        // configuration, located only as far as the leg (the checked configuration explores the
+        // same cases with assertions armed)
+        run.total.violate(
+            json!({"kind": "section", "universe": name, "status": format!("{:?}", out.status)}),
+            format!("release-configuration leg terminated abnormally: {:?}; stderr tail: {}", out.status,
+                String::from_utf8_lossy(&out.stderr).lines().rev().take(3).collect::<Vec<_>>().join(" | ")),
+        );
+        return;
+    };
+    let v: Value = serde_json::from_str(&line["LEG-RESULT ".len()..]).unwrap_or(Value::Null);
+    let states = v["states"].as_u64().unwrap_or(0);
+    let transitions = v["transitions"].as_u64().unwrap_or(0);
+    run.total.states += states;
+    run.total.transitions += transitions;
+    run.total.traces += v["traces"].as_u64().unwrap_or(0);
+    let mut nv = 0;
+    if let Some(vs) = v["violations"].as_array() {
+        for x in vs {
+            nv += 1;
+            let mut case = x["case"].clone();
+            if let Some(o) = case.as_object_mut() {
+                o.insert("config".into(), json!("release"));
+            }
+            run.total.violate(case, format!("[release build] {}", x["msg"].as_str().unwrap_or("")));
+        }
+    }
+    let total_nv = v["nviol"].as_u64().unwrap_or(nv);
+    if total_nv > nv {
+        run.total.nviol += total_nv - nv;
+    }
+    run.universes.push(json!({
+        "universe": name,
+        "config": "release (no debug assertions, no overflow checks)",
+        "states": states, "transitions": transitions, "violations": total_nv,
+        "detail": v["universes"],
+        "wall_s": (t0.elapsed().as_secs_f64() * 1000.0).round() / 1000.0,
+    }));
+    eprintln!("[{}] {:<28} states={:<12} transitions={:<13} viol={} {:.1}s", run.id, name, states, transitions, total_nv, t0.elapsed().as_secs_f64());
+}
+
+pub fn print_leg_result(run: &Run) {
+    let v = json!({
+        "states": run.total.states,
+        "transitions": run.total.transitions,
+        "traces": run.total.traces,
+        "nviol": run.total.nviol,
+        "violations": run.total.viol.iter().map(|v| json!({"case": v.case, "msg": v.msg})).collect::<Vec<_>>(),
+        "universes": run.universes,
+    });
+    println!("LEG-RESULT {}", serde_json::to_string(&v).unwrap());
+}
